@@ -10,11 +10,12 @@ CONSTANT MaxSteps
 VARIABLE steps
 
 Par == (1 :> {}) @@ (2 :> {1}) @@ (3 :> {2})
-MCInit == /\ par = Par /\ objs = {1} /\ views = 0 /\ heads = {1} /\ startHeads = {1}
+VO == (1 :> 11) @@ (2 :> 12) @@ (3 :> 13)
+MCInit == /\ par = Par /\ viewOf = VO /\ objs = {1} /\ views = {11} /\ heads = {1} /\ startHeads = {1}
           /\ written = {} /\ wcPhase = "clean" /\ wcStaleOk = FALSE /\ steps = 0
 MCNext ==
   /\ steps < MaxSteps /\ steps' = steps + 1
-  /\ \/ PersistView
+  /\ \/ \E v \in {12, 13} : PersistView(v)
      \/ \E o \in {2, 3} : o \notin objs /\ par[o] \subseteq objs /\ PersistOp(o)
      \/ \E o \in {2, 3} : HeadAdd(o)
      \/ \E o \in {1, 2, 3} : HeadRemove(o)
